@@ -65,6 +65,8 @@ fn node_value(cap: &str, name: &str) -> GExpr {
 struct Plan {
     file: GFile,
     features: Vec<&'static str>,
+    /// `var` on scoped variables: lazy evaluation rejects them by design, so only strict runs
+    strict_only: bool,
 }
 
 fn build(rng: &mut Rng) -> Plan {
@@ -81,6 +83,7 @@ fn build(rng: &mut Rng) -> Plan {
     // definers: (kind index, name); module definitions for inherited names most of the time
     let mut defs: Vec<(usize, &str)> = Vec::new();
     let mut stored_self: Vec<(usize, &str)> = Vec::new();
+    let use_var = rng.chance(1, 5);
     for n in &inherited {
         if rng.chance(5, 6) {
             defs.push((0, n));
@@ -100,7 +103,11 @@ fn build(rng: &mut Rng) -> Plan {
     }
     for (k, n) in &defs {
         let (_, q, cap) = KINDS[*k];
-        let mut stmts = vec![stmt(StmtKind::Let(GVar::s(GExpr::cap(cap), n), node_value(cap, n)))];
+        let mut stmts = if use_var {
+            vec![stmt(StmtKind::Var(GVar::s(GExpr::cap(cap), n), node_value(cap, n)))]
+        } else {
+            vec![stmt(StmtKind::Let(GVar::s(GExpr::cap(cap), n), node_value(cap, n)))]
+        };
         let store_self = rng.chance(1, 3) && !stored_self.contains(&(*k, *n));
         if store_self {
             // a syntax node stored in a scoped variable, for nested scopes (@x.self_NAME.NAME)
@@ -202,7 +209,10 @@ fn build(rng: &mut Rng) -> Plan {
         stmts.push(stmt(StmtKind::AttrNode(GExpr::var(&node), attrs)));
         items.push(Item::Stanza(GStanza { query: q.into(), pool: None, stmts, loc: Loc::default() }));
     }
-    Plan { file: GFile { items }, features }
+    if use_var {
+        features.push("mutable_scoped_definitions");
+    }
+    Plan { file: GFile { items }, features, strict_only: use_var }
 }
 
 const SOURCES: &[&str] = &[
@@ -279,6 +289,9 @@ impl Prop for C04 {
         let other_ti = TreeInfo::new(&other_tree);
         let _ = exec::execute(&file, &other_tree, &other_source, &other_ti, &globals, &functions, &ExecOpts::new(rng.chance(1, 2)));
         for lazy in [false, true] {
+            if lazy && plan.strict_only {
+                continue;
+            }
             let mode = if lazy { "lazy" } else { "strict" };
             let rep = exec::execute(&file, &tree, &source, &ti, &globals, &functions, &ExecOpts::new(lazy));
             out.eval();
